@@ -10,3 +10,6 @@ javac -cp /opt/veriftools/tla/tla2tools.jar -d out/classes java/wowsrp/*.java
 tools/tlc.sh selftest MCPrimSelfTest -workers 1 > out/selftest.log 2>&1 || { tail -30 out/selftest.log; echo "setup: MCPrimSelfTest failed"; exit 1; }
 grep -q "No error has been found" out/selftest.log || { tail -30 out/selftest.log; exit 1; }
 echo "setup ok"
+# the GMP-backed build of the harness (C19); the shim makes gmp-mpfr-sys accept the system GMP
+(cd harness && C_INCLUDE_PATH="$PWD/../tools/gmpshim" CARGO_TARGET_DIR="$PWD/target-fast" cargo build --release --offline --no-default-features --features fast 2>&1 | tail -2)
+echo "setup done"
